@@ -178,7 +178,7 @@ Dumper.add_implicit_resolver(
             r'  )'
             r'|\.(?:inf|Inf|INF)'
             r'|\.(?:nan|NaN|NAN)'
-            r'))$', re.X),
+            r'))\Z', re.X),
         list('-+0123456789.'))
 
 Dumper.add_representer(OrderedDict, Dumper.represent_ordereddict)
